@@ -5,12 +5,12 @@
 # it.  Every line must end in "alarms=[ ] errors=[ ]"; exit 1 otherwise.
 # The patches were written by independent sub-agents against /repo HEAD 64dd21e; a patch that no
 # longer applies is reported as NOAPPLY and not counted.
-jobs=${1:-10}
+jobs=${1:-10}; pattern=${2:-*}
 here=$(cd "$(dirname "$0")/.." && pwd)
 scratch=$(mktemp -d "${TMPDIR:-/tmp}/numpoly-benign.XXXXXX")
 trap 'for w in "$scratch"/wt*; do [ -d "$w" ] && git -C /repo worktree remove --force "$w" 2>/dev/null; done; rm -rf "$scratch"' EXIT
 i=0
-for d in "$here"/benign/*/; do echo "${d%/}" >> "$scratch/q$(( i % jobs ))"; i=$((i+1)); done
+for d in "$here"/benign/$pattern/; do echo "${d%/}" >> "$scratch/q$(( i % jobs ))"; i=$((i+1)); done
 for j in $(seq 0 $((jobs-1))); do
   [ -f "$scratch/q$j" ] || continue
   (
